@@ -12,6 +12,7 @@
    concrete counterpart of pytype's views. *)
 From Coq Require Import List Arith Bool.
 From PV Require Import Match.Model Match.Proofs Match.SliceExact Match.Witnesses Generated.C02_Builtins.
+From PV Require Match.ArgSite Match.ArgSiteProofs Match.Store Match.StoreProofs Match.Proto Match.ProtoProofs.
 Import ListNotations.
 
 (* ---- the full statement is refuted on the faithful model ------------------------------------------------ *)
@@ -133,3 +134,173 @@ Example members :
   inhabits tb0 (VFunc 1 1 false) (TCallable [TAny; TAny] TAny) = true /\
   inhabits tb0 (VFunc 1 1 false) (TCallable [TAny; TAny; TAny] TAny) = false.
 Proof. vm_compute. repeat split; reflexivity. Qed.
+
+(* ============================================================================================================ *)
+(* (c) ARGUMENT SITE GLUE: which annotation each passed argument is matched against (Match/ArgSite.v).
+   [ArgSite.iter_args] is Signature.iter_args + the widening rule of _match_args_sequentially; [ArgSite.bind] is
+   CPython's binding, written independently (validated against inspect.Signature.bind on every generated call).
+   Names, annotations (A) and argument values (V) are arbitrary. *)
+
+(* On every call CPython accepts, every passed argument is matched against exactly the annotation the binding
+   associates with it (same arguments, same order, same formal, keyword-only / *args / **kwargs parameters included)
+   -- away from two named deviations. *)
+Theorem argsite_binding_partial : forall (A V : Type) (s : ArgSite.sig A) (c : ArgSite.call V) l,
+  ArgSite.wf_sig s = true -> ArgSiteProofs.ann_keys_ok A s = true -> ArgSite.bind s c = Some l ->
+  ArgSite.kw_named_like_star s c = false -> ArgSite.kw_unannotated_with_kwargs s c = false ->
+  ArgSite.iter_args s c = l.
+Proof. exact ArgSiteProofs.iter_args_is_binding. Qed.
+Print Assumptions argsite_binding_partial.
+
+(* ... hence: a wrong-arg-types error iff some passed argument fails the annotation CPython's binding gives it
+   (matchf is the matcher on one argument, e.g. err_arg above) *)
+Theorem argsite_error_exact_partial : forall (A V : Type) (matchf : V -> ArgSite.formal A -> bool)
+    (s : ArgSite.sig A) (c : ArgSite.call V) l,
+  ArgSite.wf_sig s = true -> ArgSiteProofs.ann_keys_ok A s = true -> ArgSite.bind s c = Some l ->
+  ArgSite.kw_named_like_star s c = false -> ArgSite.kw_unannotated_with_kwargs s c = false ->
+  ArgSite.err_call matchf s c =
+  existsb (fun vf => match snd vf with Some f => negb (matchf (fst vf) f) | None => false end) l.
+Proof. exact ArgSiteProofs.err_call_is_binding. Qed.
+Print Assumptions argsite_error_exact_partial.
+
+(* both hypotheses are necessary: D1  def f(a: int, **kw: int); f(1, kw=5)  is matched against Mapping[str, int];
+   D2  def f(a, *, k, **kw: int); f(1, k=5)  matches the un-annotated k against **kw's int *)
+Theorem argsite_binding_refuted :
+  (ArgSite.wf_sig ArgSiteProofs.d1_sig = true /\ ArgSiteProofs.ann_keys_ok nat ArgSiteProofs.d1_sig = true /\
+   ArgSite.bind ArgSiteProofs.d1_sig ArgSiteProofs.d1_call =
+     Some [(1, Some (ArgSite.FElem 7)); (5, Some (ArgSite.FElem 7))] /\
+   ArgSite.iter_args ArgSiteProofs.d1_sig ArgSiteProofs.d1_call =
+     [(1, Some (ArgSite.FElem 7)); (5, Some (ArgSite.FKw 7))] /\
+   ArgSite.kw_unannotated_with_kwargs ArgSiteProofs.d1_sig ArgSiteProofs.d1_call = false) /\
+  (ArgSite.wf_sig ArgSiteProofs.d2_sig = true /\ ArgSiteProofs.ann_keys_ok nat ArgSiteProofs.d2_sig = true /\
+   ArgSite.bind ArgSiteProofs.d2_sig ArgSiteProofs.d2_call = Some [(1, None); (5, None)] /\
+   ArgSite.iter_args ArgSiteProofs.d2_sig ArgSiteProofs.d2_call = [(1, None); (5, Some (ArgSite.FElem 7))] /\
+   ArgSite.kw_named_like_star ArgSiteProofs.d2_sig ArgSiteProofs.d2_call = false).
+Proof. exact ArgSiteProofs.binding_refuted_w. Qed.
+Print Assumptions argsite_binding_refuted.
+
+(* D1, crashing variant:  def f(a: int, *rest, **kw: int); f(1, rest=5)  -- widen_type on a plain class: pytype
+   raises AssertionError (reproduced by the check) *)
+Theorem argsite_crash_real :
+  ArgSite.wf_sig ArgSiteProofs.d3_sig = true /\ ArgSiteProofs.ann_keys_ok nat ArgSiteProofs.d3_sig = true /\
+  ArgSite.bind ArgSiteProofs.d3_sig ArgSiteProofs.d3_call =
+    Some [(1, Some (ArgSite.FElem 7)); (5, Some (ArgSite.FElem 7))] /\
+  ArgSite.iter_args ArgSiteProofs.d3_sig ArgSiteProofs.d3_call =
+    [(1, Some (ArgSite.FElem 7)); (5, Some (ArgSite.FCrash 7))].
+Proof. exact ArgSiteProofs.crash_w. Qed.
+Print Assumptions argsite_crash_real.
+
+(* non-vacuity: def f(p, /, a: T3, *rest: T5, k: T7, **kw: T9);  f(10, 11, 12, k=13, z=14, p=15): the hypotheses
+   hold; the keyword-only k gets T7, the extra positional T5, the unknown keyword z and the positional-only NAME p
+   get **kw's T9 *)
+Definition ex_sig : ArgSite.sig nat :=
+  {| ArgSite.s_posonly := 1; ArgSite.s_params := [0; 1]; ArgSite.s_varargs := Some 2; ArgSite.s_kwonly := [3];
+     ArgSite.s_kwargs := Some 4; ArgSite.s_defaults := []; ArgSite.s_ann := [(1, 3); (2, 5); (3, 7); (4, 9)] |}.
+Definition ex_call : ArgSite.call nat :=
+  {| ArgSite.c_pos := [10; 11; 12]; ArgSite.c_named := [(3, 13); (8, 14); (0, 15)]; ArgSite.c_star := None;
+     ArgSite.c_starstar := None |}.
+Example argsite_hyps_hold :
+  ArgSite.wf_sig ex_sig = true /\ ArgSiteProofs.ann_keys_ok nat ex_sig = true /\
+  ArgSite.kw_named_like_star ex_sig ex_call = false /\ ArgSite.kw_unannotated_with_kwargs ex_sig ex_call = false /\
+  ArgSite.bind ex_sig ex_call =
+    Some [(10, None); (11, Some (ArgSite.FElem 3)); (12, Some (ArgSite.FElem 5)); (13, Some (ArgSite.FElem 7));
+          (14, Some (ArgSite.FElem 9)); (15, Some (ArgSite.FElem 9))].
+Proof. vm_compute. repeat split; reflexivity. Qed.
+
+(* ============================================================================================================ *)
+(* (d) ASSIGNMENT SITE GLUE: which stores are checked against which recorded annotation (Match/Store.v).
+   [Store.checks kn evs] is what _apply_annotation consults per event of one frame; [Store.spec] is PEP 526
+   (the most recent annotation of the name in the owning scope); kn is CPython's symbol-table decision per name. *)
+
+(* every store of the frame itself to a name that is not an explicit global -- a fast local, a module / class
+   name, or a CELL captured by a nested def / lambda (STORE_DEREF) -- is checked against exactly the declared
+   annotation, also after re-annotation, del, and stores in between *)
+Theorem assign_own_stores_checked : forall (T : Type) kn (evs : list (Store.ev T)) i e,
+  nth_error evs i = Some e -> Store.own_nonglobal kn e = true ->
+  nth_error (Store.checks kn evs) i = nth_error (Store.spec evs) i.
+Proof. exact StoreProofs.own_stores_checked. Qed.
+Print Assumptions assign_own_stores_checked.
+
+Theorem assign_frame_exact_partial : forall (T : Type) kn (evs : list (Store.ev T)),
+  forallb (Store.own_nonglobal kn) evs = true -> Store.checks kn evs = Store.spec evs.
+Proof. exact StoreProofs.frame_exact. Qed.
+Print Assumptions assign_frame_exact_partial.
+
+(* the hypothesis is necessary: a store through `nonlocal x` from a nested function, and a STORE_GLOBAL (the name is
+   declared `global` somewhere), are checked against nothing although an annotation is declared *)
+Theorem assign_frame_exact_refuted :
+  (Store.checks (fun _ => Store.KCell) [Store.EAnn 0 7 true; Store.ENonlocal 0] = [Some 7; None] /\
+   Store.spec [Store.EAnn 0 7 true; Store.ENonlocal 0] = [Some 7; Some 7]) /\
+  (Store.checks (fun _ => Store.KGlobal) [Store.EAnn 0 7 true; Store.EStore 0] = [Some 7; None] /\
+   Store.spec [Store.EAnn 0 7 true; Store.EStore 0] = [Some 7; Some 7]).
+Proof. exact StoreProofs.stores_refuted_w. Qed.
+Print Assumptions assign_frame_exact_refuted.
+
+(* non-vacuity: x: T7 = v; (captured) x = w; x: T9 = u; del x; x = z   on a cell name *)
+Example assign_hyps_hold :
+  let evs := [Store.EAnn 0 7 true; Store.EStore 0; Store.EAnn 0 9 true; Store.EDel 0; Store.EStore 0] in
+  forallb (Store.own_nonglobal (fun _ => Store.KCell)) evs = true /\
+  Store.checks (fun _ => Store.KCell) evs = [Some 7; Some 7; Some 9; None; Some 9].
+Proof. vm_compute. split; reflexivity. Qed.
+
+(* ============================================================================================================ *)
+(* (a) STRUCTURAL PROTOCOL MATCHING of unparameterised protocols (Match/Proto.v): user Protocol classes (with
+   protocol inheritance: Proto.pattrs models Class._init_protocol_attributes) and the bare builtin ones (Sized,
+   Hashable, Iterable, Container, Collection, Reversible, SupportsInt/Float/Index/Abs: member sets regenerated from
+   the loaded stubs).  [Proto.proto_match] is _match_against_protocol (name-set difference over the MRO, then
+   _match_protocol_attribute per member); [Proto.pep544] is the specification: every protocol member is found by
+   attribute lookup through the value class's MRO (inherited members, first definer wins) with a compatible kind. *)
+
+Theorem protocol_match_exact_partial : forall w nc c p,
+  Proto.pattrs_defined w p = true -> Proto.seq_map_hit w c p = false -> Proto.implicit_iter_hit w c p = false ->
+  Proto.proto_match w nc c p = Proto.pep544 w nc c p.
+Proof. exact ProtoProofs.proto_match_is_pep544. Qed.
+Print Assumptions protocol_match_exact_partial.
+
+(* the iff the property names: matches <-> the value's class (with inherited members) has every protocol member *)
+Theorem protocol_match_iff_members : forall w nc c p,
+  Proto.pattrs_defined w p = true -> Proto.seq_map_hit w c p = false -> Proto.implicit_iter_hit w c p = false ->
+  (Proto.proto_match w nc c p = true <->
+   forall a, In a (Proto.pattrs w p) ->
+     exists kl kp, Proto.lookup w c a = Some kl /\ Proto.lookup w p a = Some kp /\ Proto.kind_ok w nc kl kp = true).
+Proof. exact ProtoProofs.proto_match_iff. Qed.
+Print Assumptions protocol_match_iff_members.
+
+(* the whole instance-vs-class step: nominal through the MRO (+ compat builtins) first, structural second *)
+Theorem protocol_instance_exact_partial : forall w nc c p,
+  Proto.pattrs_defined w p = true -> Proto.seq_map_hit w c p = false -> Proto.implicit_iter_hit w c p = false ->
+  Proto.inst_match w nc c p =
+  Proto.nominal w c p || (if Proto.is_protocol w p then Proto.pep544 w nc c p else Proto.pc_pbase (Proto.cls_of w p)).
+Proof. exact ProtoProofs.inst_match_exact_partial. Qed.
+Print Assumptions protocol_instance_exact_partial.
+
+(* inherited members with override: the first class of the MRO defining the name decides (a `m = None` in a
+   subclass hides the base's method, a method in a subclass hides the base's None) *)
+Theorem protocol_lookup_first_definer : forall w pre k0 post a kd,
+  (forall j, In j pre -> Proto.own_kind (Proto.cls_of w j) a = None) ->
+  Proto.own_kind (Proto.cls_of w k0) a = Some kd ->
+  Proto.lookup_in w (pre ++ k0 :: post) a = Some kd.
+Proof. exact ProtoProofs.lookup_first_definer. Qed.
+Print Assumptions protocol_lookup_first_definer.
+
+(* both hypotheses are necessary: a class with __getitem__ only is accepted for Iterable (implicit __iter__), a
+   Mapping subclass with every member of Sequence is rejected for Sequence *)
+Theorem protocol_match_exact_refuted :
+  (Proto.pattrs_defined ProtoProofs.w0 1 = true /\ Proto.seq_map_hit ProtoProofs.w0 4 1 = false /\
+   Proto.proto_match ProtoProofs.w0 0 4 1 = true /\ Proto.pep544 ProtoProofs.w0 0 4 1 = false /\
+   Proto.implicit_iter_hit ProtoProofs.w0 4 1 = true) /\
+  (Proto.pattrs_defined ProtoProofs.w0 2 = true /\ Proto.implicit_iter_hit ProtoProofs.w0 5 2 = false /\
+   Proto.proto_match ProtoProofs.w0 0 5 2 = false /\ Proto.pep544 ProtoProofs.w0 0 5 2 = true /\
+   Proto.seq_map_hit ProtoProofs.w0 5 2 = true).
+Proof. exact ProtoProofs.proto_refuted_w. Qed.
+Print Assumptions protocol_match_exact_refuted.
+
+(* non-vacuity + _init_protocol_attributes on an inheriting protocol: P0 {m3}; P1(P0) {m4}; PE(P1) {} requires
+   {m3, m4}; Q(P0) is not a protocol; K: m3 = None, m4 -- rejected; L(K): def m3 -- accepted *)
+Example protocol_hyps_hold :
+  Proto.pattrs_tbl ProtoProofs.w1 = [[]; [3]; [3; 4]; [3; 4]; []; []; []] /\
+  Proto.pattrs_defined ProtoProofs.w1 3 = true /\ Proto.seq_map_hit ProtoProofs.w1 5 3 = false /\
+  Proto.implicit_iter_hit ProtoProofs.w1 5 3 = false /\
+  Proto.proto_match ProtoProofs.w1 0 5 3 = false /\ Proto.proto_match ProtoProofs.w1 0 6 3 = true /\
+  Proto.proto_match ProtoProofs.w1 0 6 1 = true /\
+  Proto.inst_match ProtoProofs.w1 0 4 1 = true /\ Proto.inst_match ProtoProofs.w1 0 5 4 = false.
+Proof. exact ProtoProofs.pattrs_example_w. Qed.
